@@ -11,6 +11,9 @@ SUBS = [
     ('\t"math/rand/v2"\n', "", 1),
     ("rand.Float64()", "verifRandFloat64()", 1),
     ("rand.IntN(", "verifRandIntN(", 1),
+    # a yield point between obtaining the new certificate and storing it in the cache (the generate lock is a
+    # channel lock in this build, so parking here with the lock held is a durable block for the waiters)
+    ("\tsc.registerSecret(*ns)\n", "\tVerifYield(\"agent.beforeRegisterSecret\")\n\tsc.registerSecret(*ns)\n", 1),
 ]
 
 
